@@ -258,6 +258,40 @@ def run(ctx, prop):
             if rc == 0 and natural(w, s) != packed(w, s):
                 oracle_fail.append({"case": w, "failures": [{"error": "a struct that needs padding (declared in an included file, used as a parameter type) was accepted and emitted",
                                                              "natural": natural(w, s), "assumed": packed(w, s)}]})
+    # the same for every position of the using method inside the interface and for inherited
+    # methods (members of other kinds before it, an included base interface that starts with a
+    # constant / an error)
+    def _mm(nm_, ps_):
+        return {"k": "method", "name": nm_, "optional": False, "doc": None, "params": ps_}
+    recp = lambda d_: [{"dir": d_, "type": "Rec", "arr": None, "name": "r"}]
+    rec = {"k": "struct", "name": "Rec", "fields": [{"type": "uint8", "count": 1, "name": "tag"}, {"type": "uint32", "count": 1, "name": "value"}]}
+    layouts = {
+        "after-error": [{"k": "error", "name": "NOT_FOUND"}, _mm("put", recp("in"))],
+        "after-const": [{"k": "const", "type": "uint32", "name": "LIMIT", "value": "3"}, _mm("first", []), _mm("get", recp("out"))],
+        "between": [_mm("first", []), {"k": "error", "name": "E1"}, {"k": "const", "type": "uint8", "name": "K1", "value": "1"},
+                    _mm("arr", [{"dir": "in", "type": "Rec", "arr": "unbounded", "name": "rs"}]), {"k": "error", "name": "E2"}],
+    }
+    for lab, members in layouts.items():
+        for inherited in (False, True):
+            if inherited:
+                files = [{"path": "main.idl", "nodes": [{"k": "include", "path": "base.idl"}, {"k": "interface", "name": "IUse", "base": "IBaseRec", "members": [_mm("own", [])]}]},
+                         {"path": "base.idl", "nodes": [{"k": "include", "path": "rec.idl"}, {"k": "interface", "name": "IBaseRec", "base": None, "members": members}]},
+                         {"path": "rec.idl", "nodes": [rec]}]
+            else:
+                files = [{"path": "main.idl", "nodes": [{"k": "include", "path": "rec.idl"}, {"k": "interface", "name": "IUse", "base": None, "members": members}]},
+                         {"path": "rec.idl", "nodes": [rec]}]
+            w = {"id": f"C06-param-{lab}-{int(inherited)}", "files": files, "main": "main.idl", "incdirs": []}
+            with C.Scratch() as tmp:
+                root = os.path.join(tmp, "src")
+                idl.render_case(w, root)
+                rc, err = E.run_idlc(ctx, root, "main.idl", [], "c-skel", os.path.join(tmp, "o.h"))
+                model, impl = E.e1(ctx, w, root)
+                ctx.bump("evaluations")
+                if (E.verdict_of(model) == "accept") != (rc == 0):
+                    disagree.append({"case": w, "model": E.verdict_of(model), "cli_exit": rc})
+                if rc == 0:
+                    oracle_fail.append({"case": w, "failures": [{"error": "a struct that needs padding (declared in an included file, used as a parameter type) was accepted and emitted",
+                                                                 "natural": natural(w, "Rec"), "assumed": packed(w, "Rec")}]})
     # ---- known findings (none at present): witnesses
     for w in F.witness_cases(prop):
         with C.Scratch() as tmp:
